@@ -607,6 +607,14 @@ func genOpCase(t *rapid.T, typ string, ctx *opGenCtx) *opCase {
 
 	switch {
 	case class == "valid" || class == "signed-by-uncommitted-key":
+		if typ != "create" && rapid.IntRange(0, 5).Draw(t, "signedPayloadSpelled") == 0 {
+			// what is signed is the payload's bytes, whatever JSON text they are: the signed data with insignificant white space
+			// in and around it (a document written by an encoder ends in a line break)
+			ws := func(l string) string { return rapid.SampledFrom([]string{"", "", "\n", " ", "\r\n", "\t "}).Draw(t, l) }
+			canon := refJCS(b.Signed) // numbers stay as they are: the time bounds are integers and have to be spelled as such
+			b.signText([]byte(ws("wsBefore") + "{" + ws("wsInside") + canon[1:len(canon)-1] + ws("wsInsideEnd") + "}" + ws("wsAfter")))
+			b.assemble()
+		}
 		c.Bytes = b.bytes()
 	case class == "patches-inapplicable":
 		// the patch that does not apply stands behind, in front of or between the others, also in front of a replace (which
